@@ -359,4 +359,73 @@ def exL2 := newInst 1 exLCls exL1.1 (.imm (.range 0)) (.imm .none)
 example : (nav exL2.1 exL1.2 ["submodels"]).isSome ∧ (nav exL2.1 exL2.2 ["submodels"]).isSome ∧
     nav exL2.1 exL1.2 ["submodels"] ≠ nav exL2.1 exL2.2 ["submodels"] := by decide
 
+/-! ## A copy that raises
+
+An attribute `copy.deepcopy` cannot copy (`Kind.uncopyable`: a generator, a `dict.keys()` view, a lock …) makes
+`copy()` raise.  The failed copy leaves no trace: the heap is what it was (`copyCmd`), so the original is unchanged
+and — once the attribute is replaced — every later copy is again a new, independent, observationally equal object;
+two successive copies share nothing with each other either. -/
+
+/-- **failed_copy_is_identity.** -/
+theorem failed_copy_is_identity {cs : List ClassDesc} {h : Heap} {a : Nat} (hf : (copyCmd cs h a).2 = none) :
+    (copyCmd cs h a).1 = h := by
+  unfold copyCmd at *
+  cases hc : copyRoot cs h a with
+  | none => rfl
+  | some r => obtain ⟨h1, c⟩ := r; simp [hc] at hf
+
+/-- Deep-copying an uncopyable object fails, whatever the fuel and the memo (unless it was already copied, which
+    cannot be). -/
+theorem deepcopy_uncopyable {cs : List ClassDesc} {h : Heap} {m : Memo} {l : Nat} {o : Obj} (n : Nat)
+    (ho : h[l]? = some o) (hk : o.kind = .uncopyable) (hm : m.lookup l = none) :
+    deepcopy cs n h m (.ref l) = none := by
+  cases n with
+  | zero => simp [deepcopy]
+  | succ n => simp [deepcopy, hm, ho, hk]
+
+/-- A successful copy keeps the assumptions about the world (so the copy theorems apply again afterwards). -/
+theorem worldOK_after_copy {cs : List ClassDesc} {h h1 : Heap} {a c : Nat} (W : WorldOK cs h) (ha : a < h.length)
+    (hc : copyRoot cs h a = some (h1, c)) : WorldOK cs h1 := by
+  obtain ⟨e, wf1, _, _⟩ := copyRoot_new W ha hc
+  exact ⟨wf1, fun ci cd hcd => (W.classes ci cd hcd).ext W.wf e⟩
+
+/-- **successive_copies_disjoint.**  Two copies made one after the other are distinct objects that share nothing
+    with each other (nor with the original). -/
+theorem successive_copies_disjoint {cs : List ClassDesc} {h h1 h2 : Heap} {a c1 c2 : Nat} (W : WorldOK cs h)
+    (ha : a < h.length) (hc1 : copyRoot cs h a = some (h1, c1)) (hc2 : copyRoot cs h1 a = some (h2, c2)) :
+    c1 ≠ c2 ∧ Disjoint h2 c1 c2 ∧ Disjoint h2 a c1 ∧ Disjoint h2 a c2 := by
+  obtain ⟨e1, wf1, hc1', fresh1⟩ := copyRoot_new W ha hc1
+  have W1 := worldOK_after_copy W ha hc1
+  have ha1 : a < h1.length := by have := e1.len; omega
+  obtain ⟨e2, wf2, hc2', fresh2⟩ := copyRoot_new W1 ha1 hc2
+  have old1 : ∀ x, Reach h2 c1 x → x < h1.length := fun x r =>
+    reach_lt wf1 hc1' ((reach_ext_iff wf1 e2 hc1' x).mp r)
+  have olda : ∀ x, Reach h2 a x → x < h.length := fun x r =>
+    reach_lt W.wf ha ((reach_ext_iff W.wf (e1.trans e2) ha x).mp r)
+  refine ⟨?_, ?_, ?_, ?_⟩
+  · intro heq
+    have := fresh2 c2 (Reach.refl c2)
+    omega
+  · intro x r1 r2
+    have := old1 x r1; have := fresh2 x r2; omega
+  · intro x ra r1
+    have := olda x ra
+    have := fresh1 x ((reach_ext_iff wf1 e2 hc1' x).mp r1)
+    omega
+  · intro x ra r2
+    have := olda x ra; have := fresh2 x r2; have := e1.len; omega
+
+-- non-vacuity: `a.gen = (i for i in …)` makes the copy fail and leaves the heap alone; after `a.gen = 0` two copies
+-- succeed and are distinct
+def exUnc : Heap := applyOp exB.1 exA.2 (.buildAttr "gen" [([], "gen", .uncopyable, [])])
+set_option maxRecDepth 8000 in
+example : (copyCmd [exCls] exUnc exA.2).2 = none ∧ (copyCmd [exCls] exUnc exA.2).1 = exUnc := by decide
+def exUncFixed : Heap := applyOp exUnc exA.2 (.setAttrImm "gen" (.int 0))
+set_option maxRecDepth 8000 in
+example : (match copyRoot [exCls] exUncFixed exA.2 with
+    | some (h1, c1) => (match copyRoot [exCls] h1 exA.2 with
+      | some (_, c2) => decide (c1 ≠ c2)
+      | none => false)
+    | none => false) = true := by decide
+
 end Fsic.C11
